@@ -530,9 +530,11 @@ def qset_domain(interp, sv, st):
     if key in cached:
         n, order, idx = cached[key]
     else:
-        n = fresh("card", I)
-        order = fresh("qorder", z3.ArraySort(I, Qid))
-        idx = fresh("qidx", z3.ArraySort(Qid, I))
+        # the enumeration is a function of the set value (iterating an unmodified set twice gives the same order)
+        from .core import QSet, uf
+        n = uf("QCARD", QSet, I)(sv.t)
+        order = uf("QORDER", QSet, z3.ArraySort(I, Qid))(sv.t)
+        idx = uf("QIDX", QSet, z3.ArraySort(Qid, I))(sv.t)
         j = z3.Int("j!qo")
         q = z3.Const("q!qo", Qid)
         st.assume(n >= 0,
